@@ -472,6 +472,55 @@ def rlScenario (steal : Bool) (old new : RLSpec) (pre : List FReq) (ops : List (
       r.2 :: goOps r.1 qs
   (p.2, goOps inh.1 ops)
 
+/-! ### Kafka / KafkaMQTT (explicit; `pkg/filters/kafkabackend/kafka.go`, `pkg/filters/kafka/kafka.go`)
+
+Both kinds own a `sarama.AsyncProducer`. `Close()` closes `k.done`; a watcher goroutine then calls
+`producer.Close()`, whose `shutdown()` eventually closes the producer's input channel. `Handle` ends
+with `k.producer.Input() <- msg`. In the code as found nothing tells `Handle` that the filter was
+closed: once the shutdown has finished the send panics (`send on closed channel`). The repaired
+code (`fixes/C11-kafka-handle-after-close.patch`) keeps a `closed` flag under an `RWMutex`:
+`Close` sets it (waiting for running `Handle`s) *before* it closes `done`; `Handle` holds the read
+lock around the flag test and the send and returns the kind's failure result when closed. -/
+
+structure KafkaSt where
+  /-- `k.closed` (exists only in the repaired code: stays `false` in the code as found) -/
+  closed : Bool
+  /-- the producer's input channel is still open -/
+  producerOpen : Bool
+deriving DecidableEq, Repr
+
+inductive KOut where
+  | sent      -- message handed to the producer, result ""
+  | failed    -- the kind's failure result (`parseErr` / `getDataFailed`), nothing sent
+  | panic     -- send on closed channel
+deriving DecidableEq, Repr
+
+/-- `Init()`: fresh producer, not closed. -/
+def kafkaInit : KafkaSt := ⟨false, true⟩
+
+/-- The tail of `Handle` (from the flag test to the send). -/
+def kafkaHandle (s : KafkaSt) : KOut :=
+  if s.closed then .failed else if s.producerOpen then .sent else .panic
+
+/-- `Close()`. `guarded = true`: repaired code (sets `closed` first); `false`: code as found.
+`shutdownDone`: has the asynchronous `producer.Close()` already closed the input channel when the
+next `Handle` runs (any value: the theorems quantify over it). -/
+def kafkaClose (guarded shutdownDone : Bool) (s : KafkaSt) : KafkaSt :=
+  ⟨s.closed || guarded, s.producerOpen && !shutdownDone⟩
+
+/-- `new.Inherit(old)` = `new.Init()`: the previous generation is not touched (regenerated fact). -/
+def kafkaInherit (_new old : KafkaSt) : KafkaSt × KafkaSt := (kafkaInit, old)
+
+/-- The Kafka kinds as a `KindModel` (repaired `Close`), for every timing of the shutdown. -/
+def kafkaKind (shutdownDone : Bool) : KindModel KafkaSt :=
+  { inherit := kafkaInherit, close := kafkaClose true shutdownDone, usable := fun s => kafkaHandle s ≠ .panic }
+
+/-- A harness case: old.Init, new.Inherit(old), old.Close(), then `ops` (`true` = new generation);
+`shutdownDone` = the harness waited for the old producer's shutdown. -/
+def kafkaScenario (guarded shutdownDone : Bool) (ops : List Bool) : List KOut :=
+  let old := kafkaClose guarded shutdownDone (kafkaInherit kafkaInit kafkaInit).2
+  ops.map fun isNew => if isNew then kafkaHandle (kafkaInherit kafkaInit kafkaInit).1 else kafkaHandle old
+
 /-! ## Part 4 — `mux.reload` and `runtime.reload` as functions (tied by translation)
 
 `Gen/FactsC11IR.lean` regenerates `muxReloadIR` from the body of `mux.reload`
@@ -633,23 +682,26 @@ def runtimeReload (r : Runtime) (nextSuperSpec : Nat) (nextSpec : Option SrvSpec
 /-! ## Part 5 — classification of the registered kinds (the regenerated lists
 `FactsC11.filterKinds` / `objectKinds` must be covered: `Props/C11.lean`) -/
 
-/-- Filter kinds the `filters` harness instantiates and drives through
-Init / Inherit / Close / Handle on both generations (its generator table; the judge's
-`@inventory` case compares the table of the running harness with this list). -/
+/-- Filter kinds a C11 harness instantiates and drives through Init / Inherit / Close / Handle on
+both generations: `kafkaHarnessKinds` by the `kafka` / `kafkamqtt` harnesses (real sarama producer
+against an in-process MockBroker), the others by the `filters` harness (its generator table; the
+judge's `@inventory` case compares the table of the running harness with this list minus
+`kafkaHarnessKinds`). -/
 def exercisedFilterKinds : List String :=
   ["CORSAdaptor", "CertExtractor", "ConnectControl", "Fallback", "HeaderLookup", "HeaderToJSON",
-   "MQTTClientAuth", "MeshAdaptor", "Mock", "Proxy", "RateLimiter", "RemoteFilter", "RequestAdaptor",
+   "Kafka", "KafkaMQTT", "MQTTClientAuth", "MeshAdaptor", "Mock", "Proxy", "RateLimiter", "RemoteFilter", "RequestAdaptor",
    "RequestBuilder", "ResponseAdaptor", "ResponseBuilder", "TopicMapper", "Validator"]
+
+/-- The kinds driven by their own in-package harnesses. -/
+def kafkaHarnessKinds : List String := ["Kafka", "KafkaMQTT"]
 
 /-- Filter kinds that cannot be instantiated in-process offline, with the reason. -/
 def notInstantiableFilterKinds : List (String × String) :=
-  [("Kafka", "kafkabackend: Init calls sarama.NewAsyncProducer(spec.Backend) directly and panics unless a Kafka broker answers the metadata request over TCP (only sarama's MockBroker would do; a manual probe with it shows the old generation panicking with `send on closed channel` seconds after Close — timing dependent, see notes/C11.md)"),
-   ("KafkaMQTT", "kafka: Init calls sarama.NewAsyncProducer through the unexported package variable newAsyncProducer; without a broker Init panics (only a package-internal test can substitute a mock producer); same Close/Handle code as Kafka"),
-   ("WasmHost", "wasmhost.go is excluded from the default build (//go:build wasmhost) and needs the wasmtime cgo runtime; the kind is not registered in a default binary")]
+  [("WasmHost", "wasmhost.go is excluded from the default build (//go:build wasmhost) and needs the wasmtime cgo runtime; the kind is not registered in a default binary")]
 
-/-- Filter kinds whose `Inherit` reads or writes the previous generation and which therefore have
-an explicit model (Part 3). -/
-def explicitlyModelledKinds : List String := ["RateLimiter"]
+/-- Filter kinds with an explicit model (Part 3): those whose `Inherit` reads or writes the previous
+generation (RateLimiter) and those whose `Close` takes away something `Handle` needs (the Kafka kinds). -/
+def explicitlyModelledKinds : List String := ["Kafka", "KafkaMQTT", "RateLimiter"]
 
 /-- Object kinds (types registered with `supervisor.Register`) whose update path a C11 harness
 drives, with the harness. -/
